@@ -82,7 +82,8 @@ PUT_INVENTORY_SCHEMA = {
             "type": "object",
             "patternProperties": {
                 common.RC_PATTERN: PUT_INVENTORY_RECORD_SCHEMA,
-            }
+            },
+            "additionalProperties": False
         }
     },
     "required": [
